@@ -230,7 +230,7 @@ func GenerateScript(seed uint64, prop, tier string, env *Env) *Script {
 	s := &Script{Version: 1, Property: prop, Seed: seed, Tier: tier}
 	// replicas
 	g.nrep = rng.Range(g.p.Replicas[0], g.p.Replicas[1])
-	s.Config.Replicas = append(s.Config.Replicas, NodeCfg{Pruning: "nothing", InvCheck: boolInt(rng.Chance(0.3))})
+	s.Config.Replicas = append(s.Config.Replicas, NodeCfg{Pruning: "nothing", InvCheck: boolInt(rng.Chance(0.3) || prop == "C07")})
 	for i := 1; i < g.nrep; i++ {
 		s.Config.Replicas = append(s.Config.Replicas, g.randomCfg())
 	}
